@@ -558,6 +558,25 @@ func (c *Ctx) rulesC06reuse() {
 				if nt := namedOf(fa.X.Type()); nt == nil || nt.Obj().Name() == "Subscriptions" {
 					continue
 				}
+				// the channel of the binding that was just created (a literal, or the
+				// result of a private constructor returning one) is not a reuse
+				fresh := false
+				switch x := fa.X.(type) {
+				case *ssa.Alloc:
+					fresh = true
+				case *ssa.Call:
+					if cal := x.Call.StaticCallee(); cal != nil && len(cal.Blocks) > 0 && cal.Pkg == f.Pkg {
+						fresh = len(returnsOf(cal)) > 0
+						for _, cr := range returnsOf(cal) {
+							if _, isAl := retVals(cr)[0].(*ssa.Alloc); !isAl {
+								fresh = false
+							}
+						}
+					}
+				}
+				if fresh {
+					continue
+				}
 				n += mult[f]
 				good := false
 				for _, g := range guardsOf(r.Block()) {
